@@ -817,4 +817,268 @@ theorem tempRename_get (fs : FS) (hwf : WF fs) (tmp p : Name) (new : Bytes) (hne
       simp at this
       exact absurd this.1 hne
 
+/-! ### name lemmas -/
+
+theorem isYaml_account_tmp : isYaml ".account.tmp".toList = false := by decide
+
+/-- `<anything>.tmp` is not matched by `*.yaml`. -/
+theorem isYaml_dot_tmp (x : Name) : isYaml (x ++ ".tmp".toList) = false := by
+  simp only [isYaml, List.isSuffixOf, List.reverse_append]
+  rfl
+
+/-- HAZARD (why the temp name matters): `<anything>.tmp.yaml` IS matched by `*.yaml`. -/
+theorem isYaml_tmp_dot_yaml (x : Name) : isYaml (x ++ ".tmp.yaml".toList) = true := by
+  simp only [isYaml, List.isSuffixOf, List.reverse_append]
+  rfl
+
+theorem isYaml_login (l : Name) : isYaml (l ++ ".yaml".toList) = true := by
+  simp only [isYaml, List.isSuffixOf, List.reverse_append]
+  rfl
+
+theorem append_tmp_ne (p : Name) : p ++ ".tmp".toList ≠ p := by
+  intro h
+  have := congrArg List.length h
+  simp at this
+
+theorem account_tmp_ne_login (l : Name) : ".account.tmp".toList ≠ l ++ ".yaml".toList := by
+  intro h
+  have h1 : isYaml ".account.tmp".toList = isYaml (l ++ ".yaml".toList) := by rw [h]
+  rw [isYaml_account_tmp, isYaml_login] at h1
+  exact Bool.false_ne_true h1
+
+/-! ### the account store as a whole: operations, histories, the loader's repair -/
+
+/-- the account loader's result as a function of what it lists -/
+def loadView {α : Type} (deser : Bytes → Option α) (v : View) : Option (List α) :=
+  if (v.map (·.2)).isEmpty then none else (v.map (·.2)).mapM deser
+
+theorem loadAccounts_eq {α : Type} (deser : Bytes → Option α) (fs : FS) :
+    loadAccounts deser fs = loadView deser (view isYaml fs) := rfl
+
+def acctTmp : Name := ".account.tmp".toList
+def acctFile (login : Name) : Name := login ++ ".yaml".toList
+
+inductive AcctOp where
+  | create (login : Name) (d : Bytes)
+  | update (old new : Name) (d : Bytes)
+  | delete (login : Name)
+
+/-- the system calls `YAMLAccountManager.Create / Update / Delete` make in directory state `fs` -/
+def acctProg (fs : FS) : AcctOp → List Sys
+  | .create l d => freshCreateLink acctTmp (acctFile l) d
+  | .update o n d => updateProg acctTmp fs (acctFile o) (acctFile n) d
+  | .delete l => [.remove (acctFile l)]
+
+/-- operations the server performs in this state: it creates only logins that do not exist and updates only
+    accounts that exist (handler checks; C15) -/
+def AcctOp.Valid (fs : FS) : AcctOp → Prop
+  | .create l _ => ino fs.names (acctFile l) = none
+  | .update o _ _ => ino fs.names (acctFile o) ≠ none
+  | .delete _ => True
+
+/-- run an operation; `kill = some k`: the process dies after `k` of its calls, `none`: it runs to the end -/
+def runOp (fs : FS) (op : AcctOp) (kill : Option Nat) : FS :=
+  crash (acctProg fs op) (kill.getD (acctProg fs op).length) fs
+
+/-- what `NewYAMLAccountManager` sees -/
+def obs (fs : FS) : List Bytes := contents isYaml fs
+
+/-- The loader's repair (`fix: 083f744`): a listed file whose name is not `<login inside>.yaml` is renamed to that
+    name unless it exists.  `loginOf` (the YAML decoder's Login field) is a parameter. -/
+def repairStep (loginOf : Bytes → Option Name) (fs : FS) (e : Name × Nat) : FS :=
+  match loginOf (fs.data e.2) with
+  | some l =>
+    if acctFile l ≠ e.1 ∧ ino fs.names (acctFile l) = none then apply fs (.rename e.1 (acctFile l)) else fs
+  | none => fs
+
+def recover (loginOf : Bytes → Option Name) (fs : FS) : FS :=
+  (fs.names.filter fun e => isYaml e.1).foldl (repairStep loginOf) fs
+
+theorem wf_recover (loginOf : Bytes → Option Name) (fs : FS) (h : WF fs) : WF (recover loginOf fs) := by
+  unfold recover
+  generalize (fs.names.filter fun e => isYaml e.1) = l
+  induction l generalizing fs with
+  | nil => exact h
+  | cons e l ih =>
+    apply ih
+    unfold repairStep
+    split
+    · split
+      · exact wf_apply _ _ h
+      · exact h
+    · exact h
+
+/-- Every single account operation is atomic and durable in EVERY well-formed directory state – whatever earlier
+    crashes left behind (stale temp file, temp name still linked to an account file, …): a kill at any point
+    leaves the loader seeing what it saw before or what it sees after the completed operation; and the state is
+    well formed again. -/
+theorem acct_step_atomic (fs : FS) (hwf : WF fs) (op : AcctOp) (hv : op.Valid fs) (kill : Option Nat) :
+    (obs (runOp fs op kill) = obs fs ∨ obs (runOp fs op kill) = obs (runOp fs op none)) ∧
+    WF (runOp fs op kill) := by
+  refine ⟨?_, wf_crash _ _ fs hwf⟩
+  cases op with
+  | create l d =>
+    have hl : (freshCreateLink acctTmp (acctFile l) d).length = 6 := by simp [freshCreateLink, freshWrite, writeFile]
+    have h := fun k => freshCreateLink_view isYaml fs hwf acctTmp (acctFile l) d isYaml_account_tmp
+      (account_tmp_ne_login l) hv k
+    simp only [runOp, acctProg, obs, contents, Option.getD_none, hl]
+    by_cases hk : kill.getD 6 ≤ 4
+    · left; rw [(h _).1 hk]
+    · right; rw [(h _).2 (by omega), (h 6).2 (by omega)]
+  | update o n d =>
+    simp only [runOp, acctProg, obs, Option.getD_none]
+    unfold updateProg
+    by_cases hsame : acctFile o = acctFile n
+    · simp only [hsame, if_true]
+      have hex : ino fs.names (acctFile n) ≠ none := hsame ▸ hv
+      have hl : (freshTempRename acctTmp (acctFile n) d).length = 5 := by simp [freshTempRename, freshWrite, writeFile]
+      have h := fun k => freshTempRename_view isYaml fs hwf acctTmp (acctFile n) d isYaml_account_tmp
+        (account_tmp_ne_login n) hex k
+      rw [hl]
+      rcases (h (kill.getD 5)).1 with h1 | h1
+      · left; simp only [contents, h1]
+      · right; simp only [contents, h1, (h 5).2 (by omega)]
+    · simp only [hsame, if_false]
+      cases hn : ino fs.names (acctFile n) with
+      | some c => left; simp [crash]
+      | none =>
+        simp only [Option.isSome_none, Bool.false_eq_true, if_false]
+        have hvv : isYaml (acctFile o) = isYaml (acctFile n) := by
+          simp only [acctFile]; rw [isYaml_login, isYaml_login]
+        have hl : (freshRenameUpdate acctTmp (acctFile o) (acctFile n) d).length = 6 := by
+          simp [freshRenameUpdate, freshTempRename, freshWrite, writeFile]
+        have h := fun k => freshRenameUpdate_contents isYaml fs hwf acctTmp (acctFile o) (acctFile n) d
+          isYaml_account_tmp hvv (account_tmp_ne_login n) hsame hv hn k
+        rw [hl]
+        rcases (h (kill.getD 6)).1 with h1 | h1
+        · left; exact h1
+        · right; rw [h1, (h 6).2 (by omega)]
+  | delete l =>
+    simp only [runOp, acctProg, obs, Option.getD_none]
+    cases kill with
+    | none => right; rfl
+    | some k =>
+      cases k with
+      | zero => left; simp [crash]
+      | succ k => right; simp [crash]
+
+/-- Crash – restart (with the loader's repair) – continue histories of the account store. -/
+inductive Hist (loginOf : Bytes → Option Name) (fs0 : FS) : FS → Prop where
+  | start : Hist loginOf fs0 fs0
+  | op {fs : FS} (o : AcctOp) (kill : Option Nat) : Hist loginOf fs0 fs → o.Valid fs → Hist loginOf fs0 (runOp fs o kill)
+  | restart {fs : FS} : Hist loginOf fs0 fs → Hist loginOf fs0 (recover loginOf fs)
+
+theorem hist_wf (loginOf : Bytes → Option Name) (fs0 fs : FS) (h0 : WF fs0) (h : Hist loginOf fs0 fs) : WF fs := by
+  induction h with
+  | start => exact h0
+  | op o kill _ hv ih => exact (acct_step_atomic _ ih o hv kill).2
+  | restart _ ih => exact wf_recover loginOf _ ih
+
+/-! ### the loader's repair undoes an interrupted rename -/
+
+theorem ino_none_not_mem (d : Dir) (p : Name) (h : ino d p = none) : ∀ e ∈ d, e.1 ≠ p := by
+  induction d with
+  | nil => intro e he; simp at he
+  | cons x d ih =>
+    obtain ⟨q, j⟩ := x
+    by_cases hq : q = p
+    · simp [ino, hq] at h
+    · have h' : ino d p = none := by simpa [ino, hq] using h
+      intro e he
+      simp only [List.mem_cons] at he
+      rcases he with rfl | he
+      · exact hq
+      · exact ih h' e he
+
+theorem renN_renN_back (d : Dir) (a b : Name) (hb : ∀ e ∈ d, e.1 ≠ b) : renN (renN d a b) b a = d := by
+  induction d with
+  | nil => rfl
+  | cons x d ih =>
+    obtain ⟨q, j⟩ := x
+    have ih' := ih (fun e he => hb e (by simp [he]))
+    simp only [renN] at ih'
+    have hqb : q ≠ b := hb (q, j) (by simp)
+    by_cases hq : q = a
+    · subst hq; simp [renN, ih']
+    · simp [renN, hq, hqb, ih']
+
+/-- If exactly the files called `newF` hold an account whose login says `oldF` (and `oldF` does not exist), the
+    repair renames them back and touches nothing else. -/
+theorem recover_undoes_rename (loginOf : Bytes → Option Name) (fs : FS) (oldF newF : Name) (hon : oldF ≠ newF)
+    (hnew : ino fs.names newF ≠ none) (hold : ino fs.names oldF = none) (hy : isYaml newF = true)
+    (H : ∀ e ∈ fs.names, isYaml e.1 = true →
+      ∃ l, loginOf (fs.data e.2) = some l ∧ acctFile l = (if e.1 = newF then oldF else e.1)) :
+    (recover loginOf fs).names = renN fs.names newF oldF ∧ (recover loginOf fs).data = fs.data := by
+  obtain ⟨i0, hi0⟩ := Option.ne_none_iff_exists'.mp hnew
+  -- invariant of the fold
+  have key : ∀ (L : List (Name × Nat)), (∀ e ∈ L, e ∈ fs.names ∧ isYaml e.1 = true) →
+      ∀ (cur : FS), cur.data = fs.data →
+        (cur.names = fs.names ∨ cur.names = renN fs.names newF oldF) →
+        ((L.foldl (repairStep loginOf) cur).data = fs.data ∧
+         ((L.foldl (repairStep loginOf) cur).names = fs.names ∨
+           (L.foldl (repairStep loginOf) cur).names = renN fs.names newF oldF) ∧
+         ((cur.names = renN fs.names newF oldF ∨ ∃ e ∈ L, e.1 = newF) →
+           (L.foldl (repairStep loginOf) cur).names = renN fs.names newF oldF)) := by
+    intro L
+    induction L with
+    | nil =>
+      intro _ cur hd hn
+      refine ⟨hd, hn, ?_⟩
+      intro h; rcases h with h | ⟨e, he, _⟩
+      · exact h
+      · simp at he
+    | cons e L ih =>
+      intro hL cur hd hn
+      obtain ⟨hmem, hyaml⟩ := hL e (by simp)
+      obtain ⟨l, hl, hfile⟩ := H e hmem hyaml
+      have hstep : (repairStep loginOf cur e).data = fs.data ∧
+          ((repairStep loginOf cur e).names = fs.names ∨ (repairStep loginOf cur e).names = renN fs.names newF oldF) ∧
+          ((cur.names = renN fs.names newF oldF ∨ e.1 = newF) →
+            (repairStep loginOf cur e).names = renN fs.names newF oldF) := by
+        unfold repairStep
+        rw [hd, hl]
+        dsimp only
+        by_cases he : e.1 = newF
+        · simp only [he, if_true] at hfile
+          rcases hn with hn | hn
+          · -- not yet renamed: rename it back
+            have h1 : acctFile l ≠ e.1 ∧ ino cur.names (acctFile l) = none := by
+              rw [hfile, he, hn]; exact ⟨hon, hold⟩
+            rw [if_pos h1]
+            have : apply cur (.rename e.1 (acctFile l)) = { cur with names := renN fs.names newF oldF } := by
+              rw [hfile, he]
+              simp [apply, hn, hi0, Ne.symm hon, hold]
+            rw [this]
+            exact ⟨hd, Or.inr rfl, fun _ => rfl⟩
+          · have h1 : ¬ (acctFile l ≠ e.1 ∧ ino cur.names (acctFile l) = none) := by
+              rw [hfile, hn, ino_renN_new _ _ _ (Ne.symm hon) hold, hi0]; simp
+            rw [if_neg h1]
+            exact ⟨hd, Or.inr hn, fun _ => hn⟩
+        · simp only [he, if_false] at hfile
+          have h1 : ¬ (acctFile l ≠ e.1 ∧ ino cur.names (acctFile l) = none) := by
+            rw [hfile]; simp
+          rw [if_neg h1]
+          refine ⟨hd, hn, ?_⟩
+          intro h; rcases h with h | h
+          · exact h
+          · exact absurd h he
+      obtain ⟨s1, s2, s3⟩ := hstep
+      have := ih (fun x hx => hL x (by simp [hx])) (repairStep loginOf cur e) s1 s2
+      simp only [List.foldl_cons]
+      refine ⟨this.1, this.2.1, ?_⟩
+      intro h
+      apply this.2.2
+      rcases h with h | ⟨x, hx, hxn⟩
+      · exact Or.inl (s3 (Or.inl h))
+      · simp only [List.mem_cons] at hx
+        rcases hx with rfl | hx
+        · exact Or.inl (s3 (Or.inr hxn))
+        · exact Or.inr ⟨x, hx, hxn⟩
+  have hL : ∀ e ∈ fs.names.filter (fun e => isYaml e.1), e ∈ fs.names ∧ isYaml e.1 = true := by
+    intro e he; exact List.mem_filter.mp he
+  have hres := key _ hL fs rfl (Or.inl rfl)
+  have hin : ∃ e ∈ fs.names.filter (fun e => isYaml e.1), e.1 = newF :=
+    ⟨(newF, i0), List.mem_filter.mpr ⟨ino_mem _ _ _ hi0, hy⟩, rfl⟩
+  exact ⟨hres.2.2 (Or.inr hin), hres.1⟩
+
 end Mobius.Crash
